@@ -206,7 +206,9 @@ class HDKey(EmbitKey):
         secret = raw[:32]
         chain_code = raw[32:]
         if self.is_private:
-            secret = secp256k1.ec_privkey_add(secret, self.key.serialize())
+            # parent key + IL: only IL >= n or a zero sum are invalid (BIP32),
+            # IL is the tweak (as in the public derivation), not the key
+            secret = secp256k1.ec_privkey_add(self.key.serialize(), secret)
             key = ec.PrivateKey(secret)
         else:
             # copy of internal secp256k1 point structure
